@@ -43,8 +43,11 @@ def _make_mem_class():
     class MemEndpoint(CommsObject):
         """In-memory double of the CommsObject interface."""
 
-        def __init__(self, run, hub, name, link=None):
-            super().__init__(name, "MEM")
+        def __init__(self, run, hub, name, link=None, label=None):
+            # `name` is the key the hub knows this endpoint by; the endpoint's own label (CommsObject.name, getName())
+            # is whatever its owner gave it and need not be that key
+            super().__init__(label if label is not None else name, "MEM")
+            self._key = name
             self._run = run
             self._hub = hub
             self._link = link
@@ -66,7 +69,7 @@ def _make_mem_class():
                 self.last_tx_success = False
                 self._run.faults["mem_send_closed"] += 1
                 return False
-            self._run.on_mem_send(self._hub, self.name, data)
+            self._run.on_mem_send(self._hub, self._key, data)
             if self._link is not None and isinstance(data, str):
                 tgt = self._run.hubs[self._hub].comms.endpoints.get(self._link)
                 if tgt is not None and hasattr(tgt, "inbox") and len(tgt.inbox) < self._run.net.inbox_cap:
@@ -93,7 +96,7 @@ def _make_mem_class():
             self.last_rx_success = v is not None
             if v is not None:
                 self.last_rx_data = v
-            self._run.on_recv(self._hub, self.name, pos, v)
+            self._run.on_recv(self._hub, self._key, pos, v)
             return v
 
     return MemEndpoint
@@ -249,9 +252,11 @@ class RouterRun:
                     obj = hub.comms.endpoints[e["n"]]
                     if "buf" in e:
                         obj.setBufferLen(e["buf"])
+                    if e.get("label") is not None:
+                        obj.setName(e["label"])      # public API: an endpoint's own label need not be its key in the hub
                     self._observe_endpoint(obj, hi, e["n"])
                 else:
-                    hub.comms.endpoints[e["n"]] = Mem(self, hi, e["n"], e.get("link"))
+                    hub.comms.endpoints[e["n"]] = Mem(self, hi, e["n"], e.get("link"), e.get("label"))
                 hub.kinds[e["n"]] = e
             hub.model = HubModel([e["n"] for e in hc["eps"]])
             self.hubs.append(hub)
@@ -915,6 +920,12 @@ def gen_trace(seed):
                     e["link"] = NAMES[rc.randrange(n_eps)]
                 eps.append(e)
         hubs.append({"eps": eps})
+    label_mode = rc.choice(["same", "same", "same", "default", "crossed"])
+    if label_mode != "same":
+        for hc in hubs:
+            names_ = [e["n"] for e in hc["eps"]]
+            for i_, e in enumerate(hc["eps"]):
+                e["label"] = "CommObj" if label_mode == "default" else names_[(i_ + 1) % len(names_)]
     # wire the UDP transmit ports: a peer, another endpoint (cycle / chain), or nobody
     all_rx = [(h, e["rx"]) for h, hc in enumerate(hubs) for e in hc["eps"] if e["kind"] == "udp"]
     for h, hc in enumerate(hubs):
@@ -969,7 +980,8 @@ def gen_trace(seed):
         t = "m%d" % tok[0]
         if ro.random() < p_odd:
             # payloads a careless strip()/split()/re-encode would damage
-            t = ro.choice([" " + t, t + " ", t + "\n", "\t" + t, t + "\u00e9" if not small_buf else t + "_", t + "x" * 300, t + " " + t])
+            t = ro.choice([" " + t, t + " ", t + "\n", "\t" + t, t + "\u00e9" if not small_buf else t + "_", t + "x" * 300, t + " " + t,
+                           "", "0"])       # the empty message and "0" are messages too (a truthiness test would drop them)
         return t
 
     def pick_name(h):
@@ -1035,7 +1047,7 @@ def gen_trace(seed):
         elif op == "spin":
             for n_ in pending[h]:
                 pending[h][n_] = max(0, pending[h][n_] - 1)
-            st["k"] = pick_weighted(ro, [(0, 0.3), (1, 4.0), (2, 2.0), (3, 1.0), (5, 0.3)])
+            st["k"] = pick_weighted(ro, [(0, 0.3), (1, 4.0), (2, 2.0), (3, 1.0), (5, 0.3), (ro.randint(6, 12), 0.2)])
             f = fates(4)
             if f:
                 st["fates"] = f
